@@ -246,8 +246,10 @@ func (a *asyncRun) step() {
 		if !n.started {
 			return
 		}
-		if m := n.D.MissingTransactions; len(m) > 0 && rng.Intn(100) < 92 {
+		if m := n.D.MissingTransactions; len(m) > 0 && rng.Intn(100) < 80 {
 			c.Emit(n.Transaction(Tx(pick(rng, m))))
+		} else if len(n.Requested) > 0 && rng.Intn(100) < 70 {
+			c.Emit(n.Transaction(Tx(pick(rng, n.Requested)))) // possibly a late answer to an earlier view's request
 		} else {
 			c.Emit(n.Transaction(Tx(fmt.Sprintf("t%d.%d", n.D.BlockIndex, rng.Intn(4)))))
 		}
